@@ -44,6 +44,9 @@ CHECKS = {
  "C06": ("exploration", "online trace checking: per-(id, direction) protocol automata over the wire-tap logs of the re-run C01/C02/C03/C07/C11 workloads plus a directed rendezvous family (send parked across a cancel on a transport that does not consult the context)",
          "Every client link history produced by a fixed-seed sample of the other checks' workloads (early returns, cancellations, errors, resets included) is projected per id and direction and must be accepted by automata transcribed from the README and the statement, including the end-of-history rule for trailers; the one ordering the statement singles out on the client side (nothing after the reset) is also forced deterministically.",
          "Histories are those the workloads produced; the automata are my transcription of README.md.", "DESIGN.md 2/C06"),
+ "C04": ("exploration", "runtime monitor comparing observed metadata (handler context, Header(), Trailer(), client stats InHeader, wire tap for unary trailers) with an independent normaliser over seeded metadata sets and all ways of setting them",
+         "Seeded metadata sets (mixed-case keys over the gRPC alphabet, 1..4 values, arbitrary bytes under -bin incl. NUL/0xFF/empty) attached via outgoing context and client interceptors, and by handlers via repeated SetHeader, SendHeader, header-with-first-message, header-with-trailer, repeated SetTrailer and grpc.SetHeader/SetTrailer, for all four RPC kinds with succeeding and failing handlers; every key, per-key order and byte must match.",
+         "Key sets never contain two keys equal up to case; unary response trailers are read from the wire because the client API cannot expose them.", "DESIGN.md 2/C04"),
 }
 NOT_YET = "check not built yet in this round (runtime-monitoring design in DESIGN.md section 2); will be claimed once its monitor exists"
 
